@@ -100,6 +100,7 @@ class Engine:
         for r in self.c.requires_terms(self, st):
             st.assume(r)
         self.cover(st, "requires", self.fn.lineno)
+        self.c.assume_entry_lemmas(self, st)
         outs = self.block(self.fn.node.body, st)
         for kind, s, payload in outs:
             if kind == NEXT:
@@ -329,8 +330,8 @@ class Engine:
                 nv = ty.fresh(nm)
                 st.env[nm] = nv
                 st.assume(ty.wf(nv.t))
-        for oid in lc.havoc_heap(self, st):
-            self.havoc_obj(st, oid)
+        for oid, fields in lc.havoc_heap(self, st):
+            self.havoc_obj(st, oid, fields)
 
     def havoc_obj(self, st, oid, fields=None):
         o = st.heap[oid]
@@ -522,6 +523,10 @@ class Engine:
                 return TSpace.empty()
             if isinstance(ty, (TList, TSet, TDict)):
                 return ty.empty()
+        if isinstance(v, _StrLit) and ty == TInt:
+            from . import theory as _T
+            if v.s in _T.PROBLEM:
+                return vint(_T.PROBLEM[v.s])
         if isinstance(v, _PyTuple) and isinstance(ty, TTuple):
             return Val(ty, ty.mk(*[self.coerce(x, e, st).t for x, e in zip(v.items, ty.elems)]))
         if isinstance(v.ty, TOpt) and v.ty.elem == ty:
@@ -729,8 +734,8 @@ class Engine:
                 return self.reg.int_bitop(self, st, op, a, b, node)
         if isinstance(op, ast.BitOr):
             if a.ty == TSpace and b.ty == TSpace:   # dict union: right operand wins
-                k = z3.Const(fresh_name("k"), Name)
-                return Val(TSpace, z3.Lambda([k], z3.If(indom(b.t, k), b.t[k], a.t[k])))
+                from . import theory as _T
+                return Val(TSpace, _T.union(a.t, b.t))
             if isinstance(a.ty, TSet) and a.ty == b.ty:
                 k = z3.Const(fresh_name("k"), a.ty.elem.sort())
                 return Val(a.ty, z3.Lambda([k], z3.Or(a.t[k], b.t[k])))
